@@ -596,6 +596,10 @@ func (x *exec) interleave(c *hclient, o planOp) {
 	}
 	mine := c.CurrentServer()
 	mixed := false
+	hd := o.Dest
+	if excludeSharedPacker() && x.p.ServerProto != "direct" && x.p.Dests[hd].Name {
+		hd = x.p.Dests[hd].Sock // the known packer class is excluded by construction: no second name-using session
+	}
 	for round := 0; round < 2; round++ {
 		if !x.paceTo(c, o.Dest, o.Fill, "interleave: own datagram") {
 			return
@@ -611,7 +615,7 @@ func (x *exec) interleave(c *hclient, o planOp) {
 		h.SetServer(other)
 		mixed = mixed || other.Addr().Is4() != mine.Addr().Is4()
 		for k := 0; k < 1+round; k++ {
-			if !x.paceTo(h, o.Dest, (o.Fill+7*k)%1300, "interleave: the other client") {
+			if !x.paceTo(h, hd, (o.Fill+7*k)%1300, "interleave: the other client") {
 				return
 			}
 		}
